@@ -200,7 +200,8 @@ static std::string show_datagram(const std::string& d, const HashString& own) {
   std::string t = o.has_key_string("t") ? hex(o.get_key_string("t")) : "~";
   if (!o.has_key_string("v")) return "NO-V";
   if (y == "q") {
-    if (o.has_key_string("q") && o.get_key_string("q") == "ping" && o.has_key_map("a") && o.get_key("a").has_key_string("id") &&
+    // a query of the server itself (ping to an unknown querier, find_node of a bucket refresh, ...)
+    if (o.has_key_string("q") && o.has_key_map("a") && o.get_key("a").has_key_string("id") &&
         o.get_key("a").get_key_string("id") == std::string(own.data(), 20))
       return "";
     return "ODD-QUERY";
@@ -258,6 +259,7 @@ static std::string send_and_collect(DhtRouter* r, uint32_t ip, const std::string
       socklen_t fl = sizeof from;
       ssize_t n = recvfrom(sfd, buf, sizeof buf, 0, reinterpret_cast<sockaddr*>(&from), &fl);
       if (n < 0) break;
+      if (from.sin_port != srv.sin_port) continue;   // not from this server (another harness process): ignore
       std::string sd = show_datagram(std::string(buf, n), own);
       if (sd.empty()) { pings++; continue; }
       if (from.sin_port != srv.sin_port) sd += " WRONG-SOURCE-PORT";
